@@ -388,3 +388,7 @@ func VerifC03_q_scaleBetweenDeletes() {
 // BOUND: topology 0; two statefulset pods ss-0, ss-1 bound (symbolic policy); ss-0 disappears without its event being handled (so a resync pass has API calls to make); a resync pass runs and, atomically inside any one window right before/after one of its API-server calls (symbolic window 0..10), ss-1 is re-incarnated: deleted, its event handled, re-created with a new UID, filtered and bound on any approved node. The IP of the new, unfinished incarnation must not be released by the pass (it decides on what it re-reads under the pod lock, not on its list)
 // ASSUME: C03: same scenario as VerifC04_q_resyncVsReincarnation, checked under C03
 func VerifC03_q_resyncVsReincarnation() { vpResyncVsReincarnation("C03") }
+
+// BOUND: topologies {0,1}; two pods whose names (and therefore keys) are in a prefix relation: statefulset pods ss-1 and ss-10 (replicas 11), or bare pods bare-1 and bare-10; symbolic policy; both bound; the shorter-named one ends (finished and/or deleted), its event is handled and / or a resync pass runs; then two more pods are scheduled. The release of the ended pod's IP must not release the IP of the longer-named pod, which is alive
+// ASSUME: C03: same scenario as VerifC01_q_prefixSiblings, checked under C03
+func VerifC03_q_prefixSiblings() { vpPrefixSiblings("C03") }
